@@ -13,6 +13,11 @@
 #include <sstream>
 #include <utility>
 
+// ASan's default 256 MB quarantine makes every freed block come back as a fresh page (page faults dominate the run time:
+// a KademliaTable alone is 512 small allocations); cases are short-lived, 16 MB still covers many whole cases.
+// ASAN_OPTIONS from the environment still apply on top.
+extern "C" const char* __asan_default_options() { return "quarantine_size_mb=16"; }
+
 namespace verif {
 const PropertyInfo kInfo = {
     "C37", 6, 8, 8,
